@@ -123,30 +123,58 @@ def cmd_digests(only, n):
     return 0
 
 
+UNIT_SCALE = {"c05": 0.2, "c09": 0.3, "c13": 0.7}
+
+
+def _child(name, hs, n):
+    env = dict(os.environ)
+    env["PYTHONHASHSEED"] = hs
+    env["VERIF_NO_REEXEC"] = "1"
+    env["VERIF_SELFTEST_CHILD"] = "1"
+    env["VERIF_NPROC"] = "2" if hs != "0" else "4"  # C13 golden computation: different worker counts
+    k = max(4, int(n * UNIT_SCALE.get(name, 1.0)))
+    cmd = [sys.executable, os.path.join(core.VERIF_DIR, "dst.py"), "selftest", "--seeds", str(k), "--only", name]
+    proc = subprocess.run(cmd, capture_output=True, text=True, env=env, timeout=1800, check=False)
+    line = [l for l in proc.stdout.splitlines() if l.startswith("DIGESTS ")]
+    if proc.returncode != 0 or not line:
+        return name, hs, None, f"rc={proc.returncode}: {proc.stderr[-800:]}"
+    return name, hs, json.loads(line[0][8:]).get(name), None
+
+
 def test_determinism(only, n):
-    outs = []
-    for hs in ("0", "12345", "random"):
-        env = dict(os.environ)
-        env["PYTHONHASHSEED"] = hs
-        env["VERIF_NO_REEXEC"] = "1"
-        env["VERIF_SELFTEST_CHILD"] = "1"
-        cmd = [sys.executable, os.path.join(core.VERIF_DIR, "dst.py"), "selftest", "--seeds", str(n)]
-        if only:
-            cmd += ["--only", ",".join(only)]
-        proc = subprocess.run(cmd, capture_output=True, text=True, env=env, timeout=1800, check=False)
-        line = [l for l in proc.stdout.splitlines() if l.startswith("DIGESTS ")]
-        if proc.returncode != 0 or not line:
-            return _fail(f"child (PYTHONHASHSEED={hs}) rc={proc.returncode}: {proc.stderr[-800:]}")
-        outs.append(json.loads(line[0][8:]))
+    from concurrent.futures import ThreadPoolExecutor  # pylint: disable=import-outside-toplevel
+
+    names = []
+    for name in CHECKS:
+        if only and name not in only:
+            continue
+        if os.path.exists(os.path.join(core.VERIF_DIR, "checks", name + ".py")):
+            names.append(name)
+    seeds = ("0", "12345", "random")
+    jobs = [(name, hs) for name in names for hs in seeds]
+    results = {}
     bad = 0
-    for name in outs[0]:
-        for i, d in enumerate(outs[0][name]):
-            for other in outs[1:]:
-                if other[name][i] != d:
-                    bad += _fail(f"{name} unit {i} diverges across interpreters")
+    with ThreadPoolExecutor(max_workers=9) as tp:
+        for name, hs, ds, err in tp.map(lambda j: _child(j[0], j[1], n), jobs):
+            if err:
+                bad += _fail(f"child {name} (PYTHONHASHSEED={hs}) {err}")
+            results[(name, hs)] = ds
+    total = 0
+    for name in names:
+        ref = results.get((name, seeds[0]))
+        if ref is None:
+            continue
+        total += len(ref)
+        for hs in seeds[1:]:
+            other = results.get((name, hs))
+            if other is None:
+                continue
+            for i, d in enumerate(ref):
+                if i >= len(other) or other[i] != d:
+                    bad += _fail(f"{name} unit {i} diverges between PYTHONHASHSEED={seeds[0]} and {hs}")
                     break
     if not bad:
-        print(f"determinism: {sum(len(v) for v in outs[0].values())} units x 3 interpreters identical ({', '.join(outs[0])})")
+        print(f"determinism: {total} units x 3 interpreters (PYTHONHASHSEED 0 / 12345 / random, different worker counts) identical ({', '.join(names)})")
     return bad
 
 
